@@ -97,9 +97,9 @@ func runC20(c *ev.Ctx) {
 	c.Rule = "EncoderOptions value space: (a) each documented out-of-range/NaN/Inf value on top of random legal options must be rejected; (b) legal boundary values must " +
 		"give a valid file (walker+Decode); (c) random subsets of documented sentinels vs explicit defaults: byte-identical; (d) nil opts == DefaultOptions(); " +
 		"(e) lossy-only options must not change lossless bytes; (f) EmulateJpegSize changes nothing, TargetPSNR changes nothing when TargetSize is set; (g) OptionsForPreset(PresetDefault,q)==defaults; (h) boundary image dimensions; " +
-		"(i) extreme ints in every int field: error or valid file, never a panic. distinct = (kind, mutated field/value or sentinel subset, codec, alpha)"
+		"(i) extreme ints in every int field: error or valid file, never a panic; (j) Lossless+Exact gives back every source byte, hidden colours included, with and without metadata. distinct = (kind, mutated field/value or sentinel subset, codec, alpha)"
 	n := c.N(10000, 1500000)
-	kinds := []string{"illegal", "legal", "sentinel", "sentinel", "nil", "lossyonly", "jpeg", "preset", "dims", "extreme", "illegal", "sentinel", "psnr", "pinned", "psnrtarget", "qclamp"}
+	kinds := []string{"illegal", "legal", "sentinel", "sentinel", "nil", "lossyonly", "jpeg", "preset", "dims", "extreme", "illegal", "sentinel", "psnr", "pinned", "psnrtarget", "qclamp", "exact"}
 	var cases []ev.Case
 	for i := 0; i < n; i++ {
 		cc := c20Case{Kind: kinds[i%len(kinds)], Sub: i / len(kinds)}
@@ -323,6 +323,39 @@ func c20One(c *ev.Ctx, cs ev.Case) {
 		c.Distinct(fmt.Sprintf("qclamp|%s|M%d|ts%d", what[:14], a.Method, a.TargetSize))
 		m = mm
 		same(what, a, &b, map[string]string{"kind": "qclamp"})
+	case "exact":
+		// "Exact preserves RGB values under fully transparent pixels": with Lossless and Exact the file gives back every
+		// byte of the source, hidden colours included - whichever writer Encode picks (metadata switches to the buffered one)
+		mm := img.Gen(r, img.Pick(r, img.Classes), pickS(r, "transparentrgb", "transparentrgb", "binary", "blocks", "alltransparent"), 1+r.Intn(48), 1+r.Intn(48))
+		for o := 0; o+3 < len(mm.Pix); o += 4 { // make sure hidden colours are there
+			if mm.Pix[o+3] == 0 {
+				mm.Pix[o], mm.Pix[o+1], mm.Pix[o+2] = byte(17+o), byte(200-o), byte(o>>3|1)
+			}
+		}
+		a := legalOpts(r, true)
+		a.Exact = true
+		switch cc.Sub % 4 {
+		case 0:
+			a.ICC, a.EXIF, a.XMP = nil, nil, nil
+		case 1:
+			a.ICC, a.EXIF, a.XMP = []byte("icc"), nil, nil
+		case 2:
+			a.ICC, a.EXIF, a.XMP = nil, []byte("exif-odd"), []byte("<x/>")
+		}
+		c.Distinct(fmt.Sprintf("exact|M%d|q%g|meta%d", a.Method, a.Quality, cc.Sub%4))
+		data, err := encode(mm, a)
+		if err != nil {
+			c.Violate(cs, "legal-rejected", map[string]string{"kind": "exact"}, err.Error(), map[string]string{"opts": optString(a)})
+			return
+		}
+		d, err := decode(data)
+		if err != nil {
+			c.Violate(cs, "invalid-file/undecodable", map[string]string{"what": "exact"}, err.Error(), map[string]string{"opts": optString(a), "file": b64(data)})
+			return
+		}
+		if got := img.Tight(toNRGBA(d)); !bytes.Equal(got, img.Tight(mm)) {
+			c.Violate(cs, "equivalence-broken", map[string]string{"kind": "exact"}, "Lossless + Exact: decoded bytes differ from the source (hidden colours included): "+firstPixelDiff(got, img.Tight(mm), mm.Rect.Dx()), map[string]string{"opts": optString(a), "file": b64(data)})
+		}
 	case "pinned":
 		// QMin == QMax (both documented as literal quality values in 0..100, only QMax < 0 is a sentinel) leaves the
 		// size / PSNR search no freedom: with Quality at the same value every pass runs at that quality, so the value
